@@ -24,6 +24,18 @@ const (
 	rMPOff  = "/mpoff"   // managed (app1, eppoff), publish off
 	rMDir   = "/mdiroff" // managed (app1, epdir), publish.direct off (scoped publish stays allowed)
 
+	// routes with two path segments and the other two channel types: canonical forms of the spelling part
+	// (spell_test.go); the main enumeration never names them
+	rHP    = "/hooks/plain"    // unmanaged pull
+	rHD2   = "/hooks/d2"       // unmanaged deliver, two targets
+	rHOff  = "/hooks/off"      // publish off
+	rHDir  = "/hooks/diroff"   // publish.direct off
+	rHM    = "/hooks/managed"  // managed (app2, h1), pull
+	rHM2   = "/hooks/mdeliver" // managed (app2, h2), deliver, two targets
+	rJOut  = "/jobs/out"       // outbound channel route (deliver, one target)
+	rJInt  = "/jobs/int"       // internal channel route (pull)
+	rJMInt = "/jobs/mint"      // internal channel route, managed (app2, h3)
+
 	tgt1 = "https://t1.example.org/hook"
 	tgt2 = "https://t2.example.org/hook"
 
@@ -50,6 +62,16 @@ var refRoutes = map[string]refRoute{
 	rMOff:   {targets: []string{"pull"}, app: "app1", ep: "epoff", publish: true, direct: true, managed: false, pull: true},
 	rMPOff:  {targets: []string{"pull"}, app: "app1", ep: "eppoff", publish: false, direct: true, managed: true, pull: true},
 	rMDir:   {targets: []string{"pull"}, app: "app1", ep: "epdir", publish: true, direct: false, managed: true, pull: true},
+
+	rHP:    {targets: []string{"pull"}, publish: true, direct: true, managed: true, pull: true},
+	rHD2:   {targets: []string{tgt1, tgt2}, publish: true, direct: true, managed: true},
+	rHOff:  {targets: []string{"pull"}, publish: false, direct: true, managed: true, pull: true},
+	rHDir:  {targets: []string{"pull"}, publish: true, direct: false, managed: true, pull: true},
+	rHM:    {targets: []string{"pull"}, app: "app2", ep: "h1", publish: true, direct: true, managed: true, pull: true},
+	rHM2:   {targets: []string{tgt1, tgt2}, app: "app2", ep: "h2", publish: true, direct: true, managed: true},
+	rJOut:  {targets: []string{tgt1}, publish: true, direct: true, managed: true},
+	rJInt:  {targets: []string{"pull"}, publish: true, direct: true, managed: true, pull: true},
+	rJMInt: {targets: []string{"pull"}, app: "app2", ep: "h3", publish: true, direct: true, managed: true, pull: true},
 }
 
 func refEndpointRoute(app, ep string) (string, bool) {
